@@ -1,6 +1,8 @@
 #!/bin/bash
-# usage: tools/eval_all_seeds.sh — applies every seeded change to /repo in turn, runs all checks on it
-# (occheck scan, writes nothing), reverts; prints per seed whether its own property's check fired.
+# usage: tools/eval_all_seeds.sh [--update] — applies every seeded change to /repo in turn, runs all checks
+# on it (occheck scan, writes nothing), reverts; prints per seed whether its own property's check fired.
+# With --update, records the obligations that fired in seeded/<id>/meta.json (detected_by).
+UPDATE=0; [ "${1:-}" = "--update" ] && UPDATE=1
 cd /repo || exit 2
 git diff --quiet || { echo "/repo has uncommitted changes"; exit 2; }
 for d in /verif/seeded/*/; do
@@ -9,8 +11,17 @@ for d in /verif/seeded/*/; do
   git apply "$d/patch.diff"
   out=$(/verif/bin/occheck scan 2>&1)
   git checkout -- .
-  own=$(echo "$out" | grep -E "^$prop " | awk '{print $3}' | sort -u | tr '\n' ' ')
-  other=$(echo "$out" | grep -E "^C[0-9]+ " | grep -v "^$prop " | awk '{print $1"/"$3}' | sort -u | tr '\n' ' ')
-  if [ -n "$own" ]; then echo "$id: DETECTED by $own ${other:+(also $other)}"; else echo "$id: MISSED by $prop ${other:+(fired: $other)}"; fi
+  own=$(echo "$out" | grep -E "^$prop " | awk '{print $1" "$2" "$3}' | sort -u)
+  other=$(echo "$out" | grep -E "^C[0-9]+ " | grep -v "^$prop " | awk '{print $1" "$2" "$3}' | sort -u)
+  if [ -n "$own" ]; then echo "$id: DETECTED by $(echo $own | tr '\n' ' ') ${other:+(also $(echo $other | tr '\n' ' '))}"; else echo "$id: MISSED by $prop ${other:+(fired: $(echo $other | tr '\n' ' '))}"; fi
+  if [ $UPDATE = 1 ]; then
+    python3 - "$d/meta.json" "$own" "$other" <<'PY'
+import json,sys
+p,own,other=sys.argv[1:4]
+d=json.load(open(p))
+d['detected_by']=[x for x in own.split('\n') if x]+[x for x in other.split('\n') if x]
+json.dump(d,open(p,'w'),indent=1)
+PY
+  fi
 done
 git status --short | grep -v '^??' | head
